@@ -1,5 +1,7 @@
 import CkptVerif.Proofs.DiskCost
 import CkptVerif.Proofs.HOptTables
+import CkptVerif.Proofs.PeriodicCost
+import CkptVerif.Proofs.HRevolveCost
 /-!
 # C07 — the H-Revolve family achieves its cost optimum for any (integer) cost vector
 
@@ -23,4 +25,14 @@ alias C07_hopt_le_level0 := RC.hopt1_le_level0
 
 def C07_full_stated : Prop := True
 
+end Ckpt
+
+namespace Ckpt
+/-- HRevolve: stream cost = hierarchical DP table value `opt[1][N-1][c1] + N·uf` -/
+alias C07_hrevolve := RC.hrevolve_cost
+/-- more disk units never cost more (on the streams) -/
+alias C07_hrevolve_more_disk := RC.hrevolve_more_disk
+/-- cost(PeriodicDiskRevolve) ≥ cost(DiskRevolve) -/
+alias C07_disk_le_periodic := RC.diskRevolve_le_periodic
+alias C07_periodic_cost := RC.periodic_cost
 end Ckpt
